@@ -888,8 +888,10 @@ def gen_c18_schedule(seed, index, tier):
     rng = random.Random((int(seed) << 24) ^ (index * 7919 + 17))
     quick = tier == "quick"
     variant = "select" if index % 2 == 0 else "thread"
-    profile = ("mixed", "mixed", "deepstall", "deepstall", "churn", "churn", "free", "free")[index % 8]
+    profile = ("mixed", "mixed", "deepstall", "deepstall", "churn", "churn", "free", "staleq")[index % 8]
     nticks = (300 if quick else 2000)
+    if profile == "staleq":
+        nticks = 420 if quick else 900
     maxc = 6 if quick else 10
     ops = []
     live = {}            # slot -> True (generator's guess; the controller skips impossible ops)
@@ -966,6 +968,39 @@ def gen_c18_schedule(seed, index, tier):
             left -= b
         ops.append({"op": "free", "bursts": bursts})
         budget[0] -= k
+
+    if profile == "staleq":
+        # Frames that are still queued inside the daemon for a stalled subscriber A when the device's service set
+        # shrinks: B, the only client of some services, leaves (or drops them) while A does not read; A then reads
+        # on.  The queued frames were captured for the larger set and must still be filtered to what A was granted.
+        a_svc = rng.choice([0x1f, 0x1b, 0x7, 0x1f])
+        b_svc = rng.choice([0x400, 0x400, 0x404, 0x41c & ~a_svc or 0x400])
+        ops.append({"op": "connect", "c": 0, "svc": a_svc, "strict": 0, "buffers": rng.choice([5, 8, 8]), "scanning": 0, "flags": 0})
+        ops.append({"op": "connect", "c": 1, "svc": b_svc, "strict": 0, "buffers": 2, "scanning": 0, "flags": 0})
+        ops.append({"op": "connect", "c": 2, "svc": rng.choice([0x3, 0x1, a_svc & 0x7]), "strict": 0, "buffers": 2, "scanning": 0, "flags": 0})
+        live[0] = live[1] = live[2] = True
+        ticks(3, 6)
+        ops.append({"op": "stall", "c": 0})
+        stalled.add(0)
+        ticks(330, 330) if quick else ticks(500, 700)
+        if rng.random() < 0.6:
+            ops.append({"op": rng.choice(["close", "kill"]), "c": 1})
+            live.pop(1, None)
+        else:
+            ops.append({"op": "svc", "c": 1, "reset": 1, "svc": a_svc & 0x3 or 0x1, "strict": 0})
+        ticks(1, 3)
+        ops.append({"op": "resume", "c": 0})
+        stalled.discard(0)
+        ticks(4, 10)
+        # epilogue as for every schedule
+        ops.append({"op": "tick", "n": 3})
+        order = sorted(live)
+        rng.shuffle(order)
+        for s in order:
+            ops.append({"op": rng.choice(["close", "close", "kill"]), "c": s})
+            ops.append({"op": "tick", "n": 1})
+        return {"kind": "c18", "seed": seed, "index": index, "tier": tier, "variant": variant, "profile": profile,
+                "ops": ops}
 
     # opening: two or three subscribers, a few frames
     connect(0, rng.choice([0x41f, 0x3, 0x7]))
